@@ -27,6 +27,8 @@ func checkCase(c *Case) error {
 		return checkRawCID(c)
 	case "tu-raw":
 		return checkRawTU(c)
+	case "ops":
+		return checkOps(c)
 	}
 	return fmt.Errorf("generator error: unknown kind %q", c.Kind)
 }
@@ -901,6 +903,10 @@ func classify(c *Case) (bool, []string) {
 			cls = append(cls, "incrementing-range")
 		}
 	}
+	if c.Kind == "ops" {
+		cls = append(cls, o.opsClasses...)
+		return len(c.Ops) >= 3, cls
+	}
 	if c.Kind == "cid-raw" || c.Kind == "tu-raw" {
 		if o.multiByteRawRange {
 			cls = append(cls, "multi-byte-range")
@@ -1054,6 +1060,12 @@ var tuProp = &vt.Prop[Case]{
 	Check: checkCase, Classify: classify, Render: render,
 }
 
+var opsProp = &vt.Prop[Case]{
+	Property: property, Kind: "c13-ops",
+	Gen:   genOps,
+	Check: checkCase, Classify: classify, Render: renderOps,
+}
+
 var rawProp = &vt.Prop[Case]{
 	Property: property, Kind: "c13-raw",
 	Gen:   genRaw,
@@ -1064,10 +1076,12 @@ func init() {
 	vt.Register(cidProp)
 	vt.Register(tuProp)
 	vt.Register(rawProp)
+	vt.Register(opsProp)
 }
 
 func TestCID(t *testing.T) { cidProp.Run(t, vt.NewStats(property, "cid")) }
 func TestTU(t *testing.T)  { tuProp.Run(t, vt.NewStats(property, "tu")) }
 func TestRaw(t *testing.T) { rawProp.Run(t, vt.NewStats(property, "raw")) }
+func TestOps(t *testing.T) { opsProp.Run(t, vt.NewStats(property, "ops")) }
 
 func TestReplay(t *testing.T) { vt.RunReplay(t) }
